@@ -354,10 +354,12 @@ def truncate(x, y, x_left, x_right, x_left_as_ratio=False, x_right_as_ratio=Fals
         y, truncated dependent variable.
 
     """
+    if x_left_as_ratio or x_right_as_ratio:
+        x_first, x_last = float(x[0]), float(x[-1])  # the span of a narrow integer x does not fit its type
     if x_left_as_ratio:
-        x_left = x_left * (x[-1] - x[0]) + x[0]
+        x_left = x_left * (x_last - x_first) + x_first
     if x_right_as_ratio:
-        x_right = x_right * (x[-1] - x[0]) + x[0]
+        x_right = x_right * (x_last - x_first) + x_first
 
     if x_left >= x_right:
         raise ValueError("x_left must be less than x_right")
